@@ -389,7 +389,7 @@ def part_b(ctx):
                 except T.EditError as e:
                     dup = len({json.dumps(x["range"], sort_keys=True) for x in edits}) < len(edits)
                     report("rename", p, "edits overlap (%s); the specification forbids overlapping TextEdit ranges" % ("the same range twice" if dup else "ranges intersect"),
-                           {"request": req, "edits": edits, "error": str(e), "cli": orc})
+                           {"request": dict(req, _server_offsets=[o, o]), "edits": edits, "error": str(e), "cli": orc})
                     continue
                 if "panic" in orc:
                     ctx.outcome("rename:command-line function panics (not C29)")
@@ -562,6 +562,13 @@ def confirm(ctx, plans, first_fail):
             # reftest-* subcommands print the new source followed by a newline
             if out2 != d["expected"] and out2.rstrip("\n") != d["expected"].rstrip("\n"):
                 raise Machinery(f"adapter drift: `{det['cli_cmd']}` prints a text different from the in-process function for {sig}: {out2[:120]!r} vs {d['expected'][:120]!r}")
+        if "error" in d and source == "rename" and offs:
+            # overlapping edits: reftest-lsp returned the same (overlapping) edit list (checked above)
+            rc2, out2, err2 = ctx.cli(["reftest-rename", src_path, str(offs[0]), "--new-name", NEW_NAME], timeout=60)
+            det["cli_cmd"] = f"garden reftest-rename <file> {offs[0]} --new-name {NEW_NAME}"
+            det["cli_exit"] = rc2
+            det["cli_confirmed"] = "reftest-lsp returns the same overlapping edits"
+            ctx.cov["cli_confirmed"] += 1
         if "applied" in d and "expected" in d:
             det["cli_confirmed"] = "reftest-lsp returns the same edits; applied text != expected"
             ctx.cov["cli_confirmed"] += 1
